@@ -303,6 +303,24 @@ fn run(ctx: &mut Ctx, rep: &mut Report) {
             }
         });
     }
+    // root question name, lying counts, every short tail over pointer-ish bytes
+    {
+        let ctxp: *mut Ctx = ctx;
+        let repp: *mut Report = rep;
+        let mp: *mut u64 = &mut maxsteps;
+        root_pointer_packets(tier.pick(8, 9), |i, p| {
+            let (ctx, rep, maxsteps) = unsafe { (&mut *ctxp, &mut *repp, &mut *mp) };
+            if !ctx.mine(i) {
+                return;
+            }
+            rep.transitions += 1;
+            rep.states += 1;
+            match measure(p) {
+                Ok((s, _)) => *maxsteps = (*maxsteps).max(s),
+                Err(e) => rep.violation("steps_exceed_absolute_bound", format!("root-name input {}: {}", hex(p), e), json!({"family": "L1", "input": hex(p)})),
+            }
+        });
+    }
     rep.class(&format!("fam=L1 maxsteps<={}", (maxsteps / 8 + 1) * 8));
     rep.evaluations = rep.transitions;
 }
